@@ -165,33 +165,49 @@ _OPEN = {"(": ")", "[": "]", "{": "}"}
 _CLOSE = {")", "]", "}"}
 
 
+_CLOSE_CACHE = {}
+
+
+def _closes(toks):
+    """close_of[i] = index of the bracket closing the one opened at i (computed once per token list)"""
+    key = id(toks)
+    hit = _CLOSE_CACHE.get(key)
+    if hit is not None and hit[0] is toks:
+        return hit[1]
+    close_of = {}
+    stack = []
+    for j, t in enumerate(toks):
+        s = t.s
+        if s in _OPEN:
+            stack.append(j)
+        elif s in _CLOSE:
+            if not stack:
+                raise TieBroken("unbalanced closing bracket at line %d" % t.line)
+            close_of[stack.pop()] = j
+    if stack:
+        raise TieBroken("unbalanced bracket opened at line %d" % toks[stack[-1]].line)
+    _CLOSE_CACHE.clear()
+    _CLOSE_CACHE[key] = (toks, close_of)
+    return close_of
+
+
 def _match_close(toks, i):
     """index of the token closing the bracket opened at toks[i]"""
-    depth = 0
-    for j in range(i, len(toks)):
-        s = toks[j].s
-        if s in _OPEN:
-            depth += 1
-        elif s in _CLOSE:
-            depth -= 1
-            if depth == 0:
-                return j
-    raise TieBroken("unbalanced bracket opened at line %d" % toks[i].line)
+    return _closes(toks)[i]
 
 
 def _find_at_depth0(toks, i, end, what):
     """first index in [i,end) of a token in `what` outside any bracket"""
-    depth = 0
+    close_of = _closes(toks)
     j = i
     while j < end:
         s = toks[j].s
-        if depth == 0 and s in what:
+        if s in what:
             return j
         if s in _OPEN:
-            depth += 1
-        elif s in _CLOSE:
-            depth -= 1
-        j += 1
+            j = close_of[j] + 1
+        else:
+            j += 1
     return -1
 
 
@@ -395,7 +411,7 @@ class EmitAnalysis:
         toks = self.toks
         while i < end:
             s = toks[i].s
-            if s == "if" and not (i > 0 and toks[i - 1].s == "else" and False):
+            if s == "if":
                 i, vs = self._if(i, end, vs)
             elif s == "match":
                 i = self._match(i, end, vs)
